@@ -278,7 +278,20 @@ static std::vector<uint> gen_freqs(Src &s, std::string &profile) {
     case 1: profile = "one_dominant"; f[2 + s.below(253)] = 1000 + s.u16() * 50; break;
     case 2: profile = "two_level"; for (int i = 0; i < 256; i++) f[i] = (x.below(4) == 0) ? 500 + x.below(5000) : 1; break;
     case 3: profile = "geometric"; { double w = 1 + s.below(200000); int start = s.below(200); for (int i = 0; i < 256 && w >= 1; i++) { f[(start + i * 7) % 256] += (uint)w; w *= 0.55 + s.below(4) * 0.1; } } break;
-    case 4: profile = "fibonacci"; { uint64_t a = 1, b = 1; int k = 20 + s.below(13); int start = s.below(256); for (int i = 0; i < k; i++) { f[(start + i) % 256] = (uint)a; uint64_t c = a + b; a = b; b = c; } } break;
+    case 4: profile = "fibonacci"; {
+      uint64_t a = 1, b = 1; int k = 20 + s.below(13); int start = s.below(256);
+      if (k == 32) {
+        // the deepest trees the 32-bit Codeword can hold: 256-kk symbols of weight 1 below kk symbols of weight
+        // (256-kk)*{1,2,3,5,...}; kk = 24 gives 32-bit codewords for the light symbols (total 45.6e6), 23 and 22
+        // give 31 and 30 bits.  Deeper trees are F23's domain and are not generated.
+        profile = "fibonacci_32bit";
+        int kk = 22 + start % 3;
+        uint64_t m = 256 - kk, x1 = 1, x2 = 2;
+        for (int i = 0; i < kk; i++) { f[256 - kk + i] = (uint)(m * x1); uint64_t c = x1 + x2; x1 = x2; x2 = c; }
+        return f;
+      }
+      for (int i = 0; i < k; i++) { f[(start + i) % 256] = (uint)a; uint64_t c = a + b; a = b; b = c; }
+    } break;
     default: profile = "random"; for (auto &e : f) e = 1 + (s.exhausted() ? x.below(3000) : s.u16()); break;
   }
   // zeros replaced by ones as the dictionaries do; total bounded so that no codeword can exceed 32 bits
